@@ -241,7 +241,7 @@ func genGcsProgram(r *rand.Rand, p gcsProfile) []gcs.Op {
 		case x < p.wUpload+p.wResum:
 			prog = append(prog, g.resumable(b, n, len(prog)+1, p.pCond, p.maxResum)...)
 		case x < p.wUpload+p.wResum+p.wPatch:
-			op := gcs.Op{Ev: "Patch", B: b, N: n, Conds: g.conds(p.pCond), BadBody: g.chance(0.06)}
+			op := gcs.Op{Ev: "Patch", B: b, N: n, Conds: g.conds(p.pCond), BadBody: g.chance(0.06), Junk: g.chance(0.25)}
 			if g.chance(0.7) {
 				op.Attrs = g.attrs(false)
 				if g.chance(0.5) {
